@@ -1557,7 +1557,10 @@ type connInfo struct {
 var connFields = map[string]map[string]connInfo{
 	"Query": {"items": {apifu.ConnectionDirectionBidirectional, 7}},
 	"Item": {"kids": {apifu.ConnectionDirectionForwardOnly, 4}, "rkids": {apifu.ConnectionDirectionBackwardOnly, 3},
-		"both": {apifu.ConnectionDirectionBidirectional, 5}},
+		"both": {apifu.ConnectionDirectionBidirectional, 5},
+		// a TimeBasedConnection (Connection with a ResolveEdges callback built from EdgeGetter): its getter
+		// ignores the limit and hands over every edge of the time range
+		"timed": {apifu.ConnectionDirectionBidirectional, 6}},
 }
 
 type apiUnderTest struct {
@@ -1652,6 +1655,13 @@ func (a *apiUnderTest) post(payload map[string]interface{}) (data interface{}, n
 	return resp.Data, len(resp.Errors), w.Body.String()
 }
 
+var timedBase = time.Date(2020, 1, 1, 0, 0, 0, 0, time.UTC)
+
+// the cursor of item j of the time-based connection
+func timedCursor(j int) apifu.TimeBasedCursor {
+	return apifu.NewTimeBasedCursor(timedBase.Add(time.Duration(j)*time.Second), fmt.Sprint(j))
+}
+
 func buildAPI(dc graphql.FieldCost) *apiUnderTest {
 	a := &apiUnderTest{}
 	cfg := &apifu.Config{DefaultFieldCost: dc, PersistedQueryStorage: &pqStore{m: map[string]string{}}}
@@ -1687,6 +1697,27 @@ func buildAPI(dc graphql.FieldCost) *apiUnderTest {
 		})
 	}
 	for name, ci := range connFields["Item"] {
+		if name == "timed" {
+			avail := ci.avail
+			item.Fields[name] = apifu.TimeBasedConnection(&apifu.TimeBasedConnectionConfig{
+				NamePrefix: "ItemTimed",
+				EdgeCursor: func(e interface{}) apifu.TimeBasedCursor { return timedCursor(e.(int)) },
+				EdgeFields: map[string]*graphql.FieldDefinition{
+					"node": {Type: item, Resolve: func(ctx graphql.FieldContext) (interface{}, error) { return ctx.Object, nil }},
+				},
+				EdgeGetter: func(ctx graphql.FieldContext, minTime, maxTime time.Time, limit int) (interface{}, error) {
+					var xs []int
+					for i := 1; i <= avail; i++ {
+						if t := timedBase.Add(time.Duration(i) * time.Second); !t.Before(minTime) && !t.After(maxTime) {
+							xs = append(xs, i)
+						}
+					}
+					return xs, nil // every edge of the range, whatever the limit
+				},
+				ResolveTotalCount: func(ctx graphql.FieldContext) (interface{}, error) { return avail, nil },
+			})
+			continue
+		}
 		item.Fields[name] = mkConn("Item"+strings.Title(name), ci)
 	}
 	cfg.AddQueryField("items", mkConn("QueryItems", connFields["Query"]["items"]))
@@ -1808,7 +1839,11 @@ func (g *apiGen) conn(scope, name string, depth int) *sel {
 	if g.r.Chance(1, 4) {
 		// a cursor: the items are 1..avail, the cursor of item j is the serialized int j
 		j := g.r.Range(0, ci.avail+1)
-		c, err := apifu.SerializeCursor(j)
+		var cv interface{} = j
+		if name == "timed" {
+			cv = timedCursor(j)
+		}
+		c, err := apifu.SerializeCursor(cv)
 		if err != nil {
 			panic(err)
 		}
@@ -1880,7 +1915,7 @@ func (g *apiGen) item(depth int) []*sel {
 	n := g.r.Range(1, 3)
 	for i := 0; i < n; i++ {
 		if depth > 0 && g.r.Chance(1, 2) {
-			out = append(out, g.conn("Item", rng.Pick(g.r, []string{"kids", "rkids", "both"}), depth))
+			out = append(out, g.conn("Item", rng.Pick(g.r, []string{"kids", "rkids", "both", "timed"}), depth))
 		} else {
 			out = append(out, &sel{kind: kField, scope: "Item", name: rng.Pick(g.r, []string{"id", "w"}), alias: g.alias()})
 		}
@@ -2027,7 +2062,8 @@ func apiCase(r *rng.R, apis []*apiUnderTest, dcs []graphql.FieldCost) sexp.Node 
 		sexp.T("default", sexp.Int(dc.Resolver), sexp.Int(dc.Multiplier)),
 		sexp.T("table", tableSexp()), sexp.T("opname", sexp.Str("Q")), sexp.T("vars", varsSexp(vars)),
 		sexp.T("ops", d.opsSexp()), sexp.T("frags", d.fragsSexp()), sexp.T("max", sexp.Int(-1)),
-		sexp.T("conns", sexp.L(conns...)), sexp.T("observed", observed), sexp.T("query", sexp.Str(q)))
+		sexp.T("conns", sexp.L(conns...)), sexp.T("observed", observed),
+		sexp.T("timed", sexp.Bool(strings.Contains(q, ": timed("))), sexp.T("query", sexp.Str(q)))
 }
 
 // ---------------------------------------------------------------------------------------------
